@@ -238,14 +238,23 @@ class Discharger:
         return ob.status
 
 
+def is_term_(t):
+    return isinstance(t, z3.ExprRef)
+
+
 def model_values(ctx, model):
     out = {}
     if model is None:
         return out
     for n, (t, w, signed) in ctx.vars.items():
+        if not is_term_(t):
+            out[n] = t
+            continue
         v = model.eval(t, model_completion=True)
         try:
-            if z3.is_bool(v):
+            if z3.is_real(v) and z3.is_rational_value(v):
+                out[n] = "%d/%d" % (v.numerator_as_long(), v.denominator_as_long())
+            elif z3.is_bool(v):
                 out[n] = bool(z3.is_true(v))
             else:
                 iv = v.as_long()
